@@ -7,14 +7,25 @@ from . import maps
 ID = "C03"
 LEVEL = "exploration"
 BUDGET = {"quick": 1600, "thorough": 360000}
-RULE = ("case = op list (set/rem/get/mem/resize(0)/assign/copy/bulk fill+drain) over Tree<K,V> for Int, String and Probe "
-        "keys with insertion/removal phases in ascending, descending, alternating-ends, random and universe order, "
-        "drain-and-refill; after every mutation the tree is compared with a dict + sorted keys (len, strictly monotone "
+RULE = ("case = op list (set/rem/get/mem/resize(0)/assign/copy/bulk fill+drain in ascending, descending and strided orders/"
+        "rebuild through the constructor's initial bindings new(Tree,K,V,k1,v1,...)) over Tree<K,V> for Int, String, Probe "
+        "and 3-byte plain-struct (Tri) keys, values Int/String/Probe/Blob16/Tri/Blob20 (sizes that are not multiples of 8 included), "
+        "with insertion/removal phases in ascending, descending, alternating-ends, random and universe order, "
+        "drain-and-refill; value arguments that are the embedded value of another key of the same tree; assign from Table/Tree "
+        "sources, optionally onto a tree that was assigned from a map of other key/value types (other node layout) just before; "
+        "after every mutation the tree is compared with a dict + sorted keys (len, strictly monotone "
         "forward iteration, exact reverse backward, mem/get over the key universe) and the red-black invariants (BST order, "
         "root black, no red-red, equal black height, parent links, node count, height <= 2*log2(n+1)) are checked through "
-        "the CELLO_VERIF accessor. non-trivial = the case removed a node that had two children (measured through the hook "
+        "the CELLO_VERIF accessor. For Probe keys every set/rem/get/mem (also of absent keys, also inside bulk phases and on "
+        "both ends of a large tree) is bracketed by a counter of key comparisons: at most 4*log2(n+2)+6 (twice the height bound "
+        "plus slack). non-trivial = the case removed a node that had two children (measured through the hook "
         "just before the rem). distinct = distinct case JSON.")
-ASSUMPTIONS = ["Python dict + sorted() is the reference ordered map", "white-box invariants read through Cello_Verif_Tree_Node (add-only hook)"]
+ASSUMPTIONS = ["Python dict + sorted() is the reference ordered map", "white-box invariants read through Cello_Verif_Tree_Node (add-only hook)",
+               "constructor bindings use unique keys (what a repeated key in the constructor means is not documented)",
+               "a set never passes the container's own embedded key, nor the value bound to the very key being set (self-assignment of String "
+               "is outside every listed property, DESIGN 8.3); a value embedded under a different key is ordinary user code",
+               "'logarithmic' is measured in key comparisons (Probe_Cmp calls) per operation; an implementation may compare twice per level",
+               "resize(tree, n > 0) is not part of the statement and is not issued"]
 
 
 def prepare(tier):
